@@ -148,6 +148,7 @@ package gomavlib
 //@   ghostlog gomavlib.randomByte
 //@   requires ch != nil && ch.node != nil && ch.rwc != nil
 //@   ensures  [queues-allocated] err == nil ==> ch.done != nil && ch.chWrite != nil && ch.ctx != nil
+//@   ensures  [write-queue-holds-64-items] err == nil ==> chanCap(ch.chWrite) == 64 && chanCap(ch.done) == 0
 //@   ensures  [reader-plumbing] err == nil ==> ch.frameWriter != nil && ch.frameWriter.Reader != nil && ch.frameWriter.Reader.BufByteReader != nil &&
 //@              ch.frameWriter.Reader.InKey == ch.node.InKey && ch.frameWriter.Reader.DialectRW == ch.node.dialectRW
 //@   ensures  [writer-plumbing] err == nil ==> ch.frameWriter.Writer != nil && frame.SpecWriterReady(ch.frameWriter.Writer) &&
@@ -299,6 +300,8 @@ package gomavlib
 //@              (old(n.StreamRequestFrequency) == 0 ==> n.StreamRequestFrequency == 4) && (old(n.StreamRequestFrequency) != 0 ==> n.StreamRequestFrequency == old(n.StreamRequestFrequency))
 //@   ensures  [node-loop-state-ready] err == nil ==> n.channels != nil && n.channelProviders != nil && n.done != nil && n.chEvent != nil &&
 //@              n.terminate != nil && n.chNewChannel != nil && n.chCloseChannel != nil && n.chWriteTo != nil && n.chWriteAll != nil && n.chWriteExcept != nil
+//@   ensures  [write-requests-are-handed-over-not-queued] err == nil ==> chanCap(n.chWriteTo) == 0 && chanCap(n.chWriteAll) == 0 &&
+//@              chanCap(n.chWriteExcept) == 0 && chanCap(n.chNewChannel) == 0 && chanCap(n.chCloseChannel) == 0
 //@   ensures  [node-loop-started-last] err == nil ==> logGo(logLen()-1, "(*gomavlib.Node).run")
 //@   canary   err != nil
 //@   canary   err == nil
